@@ -15,3 +15,4 @@ import WowVerif.Props.C19
 #print axioms Wv.C19.old_close_order_leaves_file_handle
 #print axioms Wv.C19.search_without_recheck_leaves_handle
 #print axioms Wv.C19.close_protocol_as_modelled
+#print axioms Wv.C19.info_within_buffer
